@@ -8,3 +8,19 @@ def contains(x):
     if x in {None, True, 2.5, 'mixed', (1, 2)}:
         return 4
     return 0
+
+
+def contains_again(y):
+    # the same literals once more: the compiler shares the constant, marshal stores it once with FLAG_REF
+    # and refers back to it from the second code object
+    if y in {'alpha', 'beta', 'gamma', 'delta', 'epsilon'}:
+        return 2
+    if y in {1, 2, 3}:
+        return 1
+    if y in {None, True, 2.5, 'mixed', (1, 2)}:
+        return 4
+    return ('alpha', 'beta'), ('alpha', 'beta')
+
+
+def third(z):
+    return z in {'alpha', 'beta', 'gamma', 'delta', 'epsilon'} or z in {('alpha', 'beta'), 'mixed'}
